@@ -242,6 +242,32 @@ theorem init_range (a b k : Int) :
   · simp [initValue, initConst, constAuto_eq, initWarn, initWarnApplies, initOutOfRange, ShapeArg.cast,
       constNorm_of_contains hwf (contains_zero _)]
 
+/-- … and the same for an initial value given as a constant expression (a `Const`, a concatenation or slice of
+constants, an enumeration member): it is accepted exactly when its *value* is an element of the range, and then kept
+unchanged (after the F35 repair; the code as found compared the object itself with the range's elements). -/
+theorem init_range_expr (a b k : Int) (e : Expr) (he : e.isConstTree = true) :
+    (denote [] [] e ∈ rangeElems a b k →
+      ∃ w, initValue (.expr e) (.range a b k) = .ok (denote [] [] e) w) ∧
+    (denote [] [] e ∉ rangeElems a b k → initValue (.expr e) (.range a b k) = .syntaxError) := by
+  have hwf := castRange_WF a b k
+  constructor
+  · intro hv
+    have hin : rangeContains a b k (denote [] [] e) = true := rangeContains_iff.2 hv
+    refine ⟨initWarn (.expr e) (shapeOf [] e) (castRange a b k), ?_⟩
+    simp [initValue, initConst, const_cast_eval e he, initOutOfRange, hin, ShapeArg.cast,
+      constNorm_of_contains hwf (castRange_holds a b k _ hv)]
+  · intro hv
+    have hin : rangeContains a b k (denote [] [] e) = false := by
+      cases h : rangeContains a b k (denote [] [] e)
+      · rfl
+      · exact absurd (rangeContains_iff.1 h) hv
+    simp [initValue, initConst, const_cast_eval e he, initOutOfRange, hin]
+
+example : initValue (.expr (.const 3 ⟨4, false⟩)) (.range 0 10 1) = .ok 3 .none ∧
+    initValue (.expr (.const 10 ⟨4, false⟩)) (.range 0 10 1) = .syntaxError ∧
+    initValue (.expr (.cat (.const 1 ⟨1, false⟩) (.cat (.const 1 ⟨2, false⟩) Expr.nil))) (.range 0 4 1) = .ok 3 .truncated := by
+  decide
+
 example : initValue (.int 10) (.range 0 10 1) = .syntaxError ∧ initValue (.int 3) (.range 0 10 2) = .syntaxError ∧
     initValue (.int 4) (.range 0 10 2) = .ok 4 .none ∧ initValue (.int (-3)) (.shape ⟨4, false⟩) = .ok 13 .signedToUnsigned ∧
     initValue (.int 8) (.shape ⟨4, true⟩) = .ok (-8) .truncated := by decide
